@@ -202,6 +202,7 @@ type vfIntent struct {
 	CertReq  *vfCertReq
 	LoginUser string // submitted (raw) username of a login attempt
 	LoginPw   string
+	Role      *vfRoleReq
 }
 
 type vfCertReq struct {
